@@ -309,7 +309,7 @@ def check_msignal(ctx, P):
                "in front of the snapshot head inside the loop, installs it, and sleeps by the ready-to-wake mechanism (C01 mechanism 3)",
                "sleeping after consuming a raise loses the wake-up; a node linked outside the loop goes stale")
     cs = wt.calls(CAS2)
-    ys = wt.calls("fiber_manager_yield")
+    ys = wt.calls(("fiber_manager_yield", "fiber_manager_set_and_wait"))
     bad = None
     if len(cs) != 2 or len(ys) != 1:
         bad = "shape"
@@ -321,7 +321,7 @@ def check_msignal(ctx, P):
                 m.run("entry", lambda n: n.k == "ReturnStmt")
             except Unevaluable as e:
                 raise AnalysisBroken("multi_signal_wait: %s" % e)
-            slept = any(c.callee == "fiber_manager_yield" for c in m.trace)
+            slept = any(c.callee in ("fiber_manager_yield", "fiber_manager_set_and_wait") for c in m.trace)
             if slept != sleeps:
                 bad = bad or "head %s: sleeps=%s" % ("RAISED" if ptr == RAISED else hex(ptr), slept)
         nx = [s for s in wt.stores_to("mpsc_fifo_node", "next")]
